@@ -102,3 +102,38 @@ func TestKnownC15SharedRegexExample(t *testing.T) {
 		t.Logf("NOT REPRODUCED (C15 entry-changed:example-of-shared-regex-type): %s in both orders", e1)
 	}
 }
+
+// TestKnownC06DependencyMapOrder replays the open C06 finding: the location of "Type @c not found" in a cycle of three
+// types depends on the iteration order of a map inside jsight-schema-core (free-running: Go randomises it).
+func TestKnownC06DependencyMapOrder(t *testing.T) {
+	doc := "JSIGHT 0.3\nGET /x/{id}\n  Path\n    @a\n  200 any\nTYPE @c any\nTYPE @b\n  @c | @a\nTYPE @a\n{\n  \"k\": @b // {optional: true}\n}\n"
+	dir := t.TempDir()
+	p := filepath.Join(dir, "root.jst")
+	os.WriteFile(p, []byte(doc), 0o644)
+	seen := map[string]int{}
+	for i := 0; i < 400; i++ {
+		_, je := kit.NewJapi(p)
+		if je == nil {
+			t.Logf("NOT REPRODUCED: accepted")
+			return
+		}
+		seen[strings.ReplaceAll(je.Error(), dir+"/", "")+" @ line "+string(rune('0'+je.Line%10))+" index "+strings.TrimSpace(strings.Repeat(" ", 0))+itoa(int(je.Index))]++
+	}
+	if len(seen) > 1 {
+		t.Logf("REPRODUCED (C06 map-order in jsight-schema-core checker): 400 builds of one document gave %d different errors: %v\noracle: the same project gives the same error, with the same index and line", len(seen), seen)
+	} else {
+		t.Logf("NOT REPRODUCED in 400 builds (one outcome): %v", seen)
+	}
+}
+
+func itoa(n int) string {
+	if n == 0 {
+		return "0"
+	}
+	s := ""
+	for n > 0 {
+		s = string(rune('0'+n%10)) + s
+		n /= 10
+	}
+	return s
+}
